@@ -124,6 +124,24 @@ def adapters_c09(pid, tier, seed, log):
 # the token endpoint without the wait between polls. Same loopback runs as C09; only the request-count clauses belong to
 # C07 (everything else is C09's business and its known findings are not repeated here).
 
+def adapters_c01(pid, tier, seed, log):
+    """C01 speaks of every request the library SENDS: with a bundled HTTP client the bytes that reach the server are
+    what the prepared HttpRequest says (method, target, the three headers, the body bytes)."""
+    r = adapters_c09("C09", tier, seed, log)
+    keep = []
+    wanted = ("request-method", "request-target", "request-accept", "request-content-type", "request-authorization",
+              "request-body", "request-not-delivered")
+    for name, payload, found in r.get("violations", []):
+        sig = payload.get("signature", name)
+        if any(w in sig for w in wanted) and "corr:" not in sig:
+            payload = dict(payload, note="reported under C01: the request a bundled HTTP client puts on the wire differs from the prepared HttpRequest")
+            keep.append((sig.replace("C09:", "C01:adapter:"), payload, found))
+    cov = r.get("coverage", {})
+    return {"coverage": {"loopback_cases": cov.get("evaluations"),
+                         "rule": "the C09 loopback matrix; only the request-direction clauses (method, target, Accept, Content-Type, Authorization, body bytes, delivery) are judged here"},
+            "violations": keep, "tooling": r.get("tooling", []), "known_lines": []}
+
+
 def adapters_c07(pid, tier, seed, log):
     r = adapters_c09("C09", tier, seed, log)
     keep = []
